@@ -380,7 +380,11 @@ func (st *State) conv(tdst, tsrc types.Type, x Value) Value {
 			switch v := x.(type) {
 			case *term.T:
 				if !v.IsConst() {
-					return OpaqueFloat{bits}
+					cv, ok := st.concretizeSmall(v, 16)
+					if !ok {
+						return OpaqueFloat{bits}
+					}
+					v = term.BV(v.W, cv)
 				}
 				if isSigned(tsrc) {
 					f = float64(v.Signed())
